@@ -19,7 +19,8 @@ def judge(case):
         if all(x["kind"] != k for x in viol): viol.append({"kind": k, "detail": detail})
     results = {}
     accepted = False
-    for dt in (np.float32, np.float64):
+    order = (np.float32, np.float64) if int(harness.digest(case), 16) % 2 else (np.float64, np.float32)
+    for dt in order:       # the order alternates from case to case: state left behind by one dtype must not leak into the other
         arrays = fam.arrays_for(case, dtype=dt)
         diff = cn.diff_idx(case, arrays) if fam is cn else list(range(len(arrays)))
         rg = [i in diff for i in range(len(arrays))]
